@@ -13,6 +13,7 @@ CONSTANTS
  InnerForNestRoots = TRUE
  PadsEveryTextNode = FALSE
  CountsPerTextNode = FALSE
+ AllFlagAssignments = FALSE
  SeparatesRunningText = TRUE
 SPECIFICATION MSpec
 INVARIANTS Inv_ViewsAgree Inv_CountMatchesText Inv_CountExceedsByJoints
